@@ -20,7 +20,9 @@ SameOutcome(a, b) == a.k = b.k /\ (a.k = "ok" => a = b)
 JudgeDecode(e) ==
     /\ e.out.k = "ok"
     /\ SameOutcome(e.out.reader, e.out.slice)                 \* reader = slice, however chunked
+    /\ SameOutcome(e.out.reader_int, e.out.slice)             \* ... also when reads are interrupted now and then (callers retry)
     /\ e.out.is_reader = e.out.is_slice                       \* detection predicates agree
+    /\ e.out.is_reader_int = e.out.is_slice
     /\ SameOutcome(e.out.dataurl, e.out.slice)                \* data URL decodes to the same map as its payload
     /\ (DeclErr(e.args.bytes) => e.out.slice.k = "err" /\ ~e.out.is_slice)   \* bare CR rejected on both
     /\ (e.args.valid /\ ~DeclErr(e.args.bytes) /\ (HasHeader(e.args.bytes) => FirstLF(e.args.bytes) # 0)
